@@ -114,3 +114,46 @@ def encReadFullStatus (gen : Nat) (ds : List (Vals × TidKind × Vals)) : List N
   toBytes gen 4 ++ toBytes (48 * ds.length) 4 ++ (ds.map encFullStatusDescriptor).flatten
 
 end Std
+
+namespace Std
+
+/-! ## Device Identification VPD page 83h (SPC-4 7.8.6): designation descriptors -/
+
+/-- the designator formats the library decodes -/
+inductive Des
+  | vendor (body : List Nat)                 -- type 0h: vendor specific
+  | t10 (vid rest : List Nat)                -- type 1h: T10 VENDOR IDENTIFICATION (8 bytes) + vendor specific identifier
+  | naa (code : Nat) (v : Vals)              -- type 3h: NAA 2h / 3h / 5h / 6h
+  | port (v : Vals)                          -- type 4h: relative target port identifier
+  | tpg (v : Vals)                           -- type 5h: target port group
+  | lug (v : Vals)                           -- type 6h: logical unit group
+  | md5 (b : List Nat)                       -- type 7h: MD5 logical unit identifier (16 bytes)
+  | name (body : List Nat)                   -- type 8h: SCSI name string
+
+def naaBlock (code : Nat) : Block :=
+  if code = 2 then naaIeeeExtended else if code = 3 then naaLocallyAssigned
+  else if code = 5 then naaIeeeRegistered else naaIeeeRegisteredExtended
+
+def Des.ty : Des → Nat
+  | .vendor _ => 0 | .t10 _ _ => 1 | .naa _ _ => 3 | .port _ => 4 | .tpg _ => 5 | .lug _ => 6 | .md5 _ => 7 | .name _ => 8
+
+/-- the DESIGNATOR field -/
+def Des.bytes : Des → List Nat
+  | .vendor b => b
+  | .t10 vid rest => vid ++ rest
+  | .naa code v => (naaBlock code).enc v
+  | .port v => relativePortDesignator.enc v
+  | .tpg v => targetPortGroupDesignator.enc v
+  | .lug v => logicalUnitGroupDesignator.enc v
+  | .md5 b => b
+  | .name b => b
+
+/-- designation descriptor: 4-byte header (DESIGNATOR LENGTH at byte 3) + DESIGNATOR -/
+def encDesignation (d : Vals × Des) : List Nat := designationDescriptor.enc d.1 ++ d.2.bytes
+
+def desBodyLen (ds : List (Vals × Des)) : Nat := ds.foldr (fun d acc => 4 + d.2.bytes.length + acc) 0
+
+/-- the page: common VPD header with PAGE LENGTH (n−3), then the designation descriptors -/
+def encVpd83 (hv : Vals) (ds : List (Vals × Des)) : List Nat := vpdHeader.enc hv ++ (ds.map encDesignation).flatten
+
+end Std
